@@ -153,6 +153,13 @@ class Oracle:
     def valid(self, v, ref=None):
         return self.validator(ref).is_valid(v)
 
+    def valid_or_none(self, v, ref=None):
+        """None when the oracle itself fails (ill-founded schemas such as N = anyOf[N, null] recurse forever)."""
+        try:
+            return self.validator(ref).is_valid(v)
+        except Exception:
+            return None
+
     def errors(self, v, ref=None):
         return list(self.validator(ref).iter_errors(v))
 
